@@ -113,7 +113,9 @@ type c19State struct {
 
 var c19St *c19State // one script runs at a time per process
 
-func c19NewState() { c19St = &c19State{dicts: map[string]segment.Dictionary{}, tainted: map[string]bool{}} }
+func c19NewState() {
+	c19St = &c19State{dicts: map[string]segment.Dictionary{}, tainted: map[string]bool{}}
+}
 
 func hashStr(s string) string {
 	h := sha256.Sum256([]byte(s))
